@@ -937,16 +937,40 @@ class PyGen:
             subj = self.sub('test')
         if subj and subj[0].s == '*':
             subj = [self.name(soft_ok=False)]
+        if cs.bool(60):
+            subj = self.colon_rich()
         cases = []
         for _ in range(1 + cs.small(3)):
             mid = self.fresh()
             hdr = [M('match_case', mid, False), tk('case')] + self.pattern_top()
             if cs.bool(60):
-                hdr += [tk('if')] + self.named()
+                hdr += [tk('if')] + (self.named() if cs.bool(190) else self.colon_rich())
                 self.feat('guard')
             cases += self.suite(depth + 1, hdr + [tk(':')])
             cases.append(('mark', M('match_case', mid, True)))
         return [('line', [tk('match')] + subj + [tk(':')]), ('block', cases)]
+
+    def colon_rich(self):
+        """an expression with colons of its own - lambdas bare and inside every kind of bracket, dict displays, slices - for the
+        lines on which the soft-keyword look-ahead has to tell such colons from the one that ends a `match` / `case` header"""
+        cs = self.cs
+        self.feat('colon_rich_header_expr')
+        k = cs.choice(8)
+        if k == 0:
+            return self.lambda_()
+        if k == 1:
+            return [tk('(')] + self.lambda_() + [tk(')')]
+        if k == 2:
+            return [tk('[')] + self.lambda_() + [tk(','), self.name(soft_ok=False), tk(']')]
+        if k == 3:
+            return [self.name(soft_ok=False), tk('(')] + self.lambda_() + [tk(')')]
+        if k == 4:
+            return [tk('{')] + self.sub('or') + [tk(':')] + self.sub('test') + [tk('}')]
+        if k == 5:
+            return [self.name(soft_ok=False), tk('[')] + self.sub('or') + [tk(':')] + (self.sub('or') if cs.bool() else []) + [tk(']')]
+        if k == 6:
+            return [tk('{')] + self.sub('or') + [tk(':'), tk('(')] + self.lambda_() + [tk(')'), tk('}')]
+        return self.sub('or') + [tk('if')] + self.sub('or') + [tk('else'), tk('(')] + self.lambda_() + [tk(')')]
 
     def pattern_top(self):
         cs = self.cs
